@@ -152,6 +152,8 @@ class Type1FontHeaderParser(PSStackParser[int]):
             try:
                 self._cid2unicode[cid] = name2unicode(cast(str, name))
             except KeyError as e:
+                # the later assignment replaces an earlier one for this code
+                self._cid2unicode.pop(cid, None)
                 log.debug(str(e))
         return self._cid2unicode
 
